@@ -63,6 +63,44 @@ def kernel_job(job):
     return "kern", ev + between
 
 
+def thread_job(job):
+    """the same regimes with SEVERAL events in flight on one kernel object: a batch of > 100 events (several partitions) under the
+    threaded scheduler with a site-dependent cloud top (the latitude encodes the event).  The light removed from an event must be
+    decided by the cloud top at ITS site, whatever the other events see: tops far below every segment (cloud-free result, bit for
+    bit) alternate with tops far above (exactly zero)."""
+    use_repo()
+    import warnings
+    warnings.simplefilter("ignore")
+    import dask
+    from nuspacesim.simulation.eas_optical.cphotang import CphotAng
+    from nssverif.pipeline import quiet_progress
+    quiet_progress()
+    rng = np.random.default_rng(job["seed"])
+    n = job["n"]
+    beta = np.radians(rng.uniform(1.0, 42.0, n))
+    alt = rng.uniform(0.0, 15.0, n)
+    E = 10.0 ** rng.uniform(-1.0, 1.5, n)
+    lat = np.arange(n) * 1e-3
+    lon = rng.uniform(0, 6.0, n)
+    choices = np.array([-np.inf, -1.0, 200.0, np.inf])
+    tops = choices[(np.arange(n) * 7 + rng.integers(0, 4)) % 4]
+
+    def cloudf(la, lo):
+        return np.float64(tops[int(round(float(la) * 1000.0))])
+    c = CphotAng(525.0)
+    free = [c.run(beta[i], alt[i], E[i], lat[i], lon[i], None) for i in range(n)]
+    ev = []
+    for sched, kw in (("threads-4", {"scheduler": "threads", "num_workers": 4}), ("threads-16", {"scheduler": "threads", "num_workers": 16})):
+        with dask.config.set(**kw):
+            d, th = CphotAng(525.0)(beta, alt, E, lat, lon, cloudf)
+        for i in range(n):
+            ev.append({"kind": "kern", "top": bits(tops[i]), "zsFirst": bits(0.0), "zsPen": bits(100.0), "d": bits(d[i]), "th": bits(th[i]),
+                       "d0": bits(free[i][0]), "th0": bits(free[i][1]),
+                       "_m": {"batch": sched, "i": i, "beta_deg": float(np.degrees(beta[i])), "alt": float(alt[i]), "E": float(E[i]),
+                              "top": float(tops[i]), "zs0": 0.0, "zsPen": 100.0, "d": float(d[i]), "d0": float(free[i][0])}})
+    return "kern", ev
+
+
 def _sphere(rng, n):
     lat = np.arcsin(rng.uniform(-1, 1, n))
     lon = rng.uniform(-np.pi, 2 * np.pi, n)        # geometry reports (-pi, pi]; [pi, 2 pi) must wrap too
@@ -121,7 +159,7 @@ def model_job(job):
 
 
 def _dispatch(job):
-    return kernel_job(job) if job["t"] == "kern" else model_job(job)
+    return {"kern": kernel_job, "threads": thread_job, "model": model_job}[job["t"]](job)
 
 
 def run(tier="quick", seed=0):
@@ -132,6 +170,7 @@ def run(tier="quick", seed=0):
     maps = {m: tables.export_cloud_map(m) for m in months}
     pr.model_check("MCClouds", workers=8, timeout=900, heap="4g", env={"ATM_FILE": atm, "MAP_FILE": maps[months[0]]})
     jobs = [{"t": "kern", "seed": seed * 100 + j, "n": 30 if thorough else 5} for j in range(10)]
+    jobs += [{"t": "threads", "seed": seed * 100 + 77 + j, "n": 330 if thorough else 230} for j in range(3 if thorough else 1)]
     jobs += [{"t": "model", "month": 0, "seed": seed, "n": 200}]
     jobs += [{"t": "model", "month": m, "seed": seed + m, "n": 3000 if thorough else 500} for m in months]
     res = par.pmap(_dispatch, jobs, workers=14)
